@@ -1,11 +1,23 @@
 // C11 — module tree life cycle: nested, ordered, balanced hooks under every assignment of hook failures.
-// The only nondeterminism is the fault plan (which user hooks fail) and the sequence of calls on the root;
-// there is no schedule or clock in this property (DESIGN.md §7 C11).
+// cfg part 0: calls on a bare main::Module tree (the only nondeterminism is the fault plan — which user hooks fail — and the
+//             sequence of calls on the root); cfg nofinal=1 destroys the tree without a final cleanup().
+// cfg part 1: the real tbox::main::Main() (run_in_frontend.cpp) runs on simulated thread 0 with the real ContextImp (loop, thread
+//             pool, timer pool, terminal, watchdog thread); RegisterApps() builds the probe tree; a driver thread raises SIGINT
+//             after cfg run_ms virtual milliseconds.  Threads mode, seeded schedule.
+// cfg part 2: tbox::main::Start() / Stop() (run_in_backend.cpp): the loop runs on a thread of its own.
 #include <sim.h>
 
 #include <tbox/base/json.hpp>
 #include <tbox/main/module.h>
 #include <tbox/main/context.h>
+#include <tbox/main/main.h>
+#include <tbox/event/loop.h>
+#include <tbox/event/timer_event.h>
+
+#include <fcntl.h>
+#include <signal.h>
+#include <unistd.h>
+#include <thread>
 
 #include <algorithm>
 #include <map>
@@ -22,11 +34,14 @@ enum Hook { K_INIT = 0, K_START, K_STOP, K_CLEANUP };
 static const char *HN[] = {"onInit", "onStart", "onStop", "onCleanup"};
 
 // ops:  node <parent (-1 root)> <required> <named> <fail_init> <fail_start>      (node 0 is the root; parents precede children)
-//       call <0 initialize,1 start,2 stop,3 cleanup>
+//       call <0 initialize,1 start,2 stop,3 cleanup>                              (part 0 only)
 void generate(sim::Rng &r, uint64_t seed, const std::string &tier, sim::Plan &p) {
   bool thorough = tier == "thorough";
+  long part = r.chance(700) ? 0 : (r.chance(500) ? 1 : 2);
+  p.cfg["part"] = part;
   int n = (int)r.range(1, thorough ? 15 : 10);
   unsigned fail_rate = (unsigned)r.pick((const long[]){0, 100, 250, 400});
+  if (part != 0) fail_rate = (unsigned)r.pick((const long[]){0, 0, 60, 150, 300});
   std::vector<int> depth;
   for (int i = 0; i < n; ++i) {
     sim::Op op; op.kind = "node";
@@ -36,18 +51,30 @@ void generate(sim::Rng &r, uint64_t seed, const std::string &tier, sim::Plan &p)
     op.a = {parent, r.chance(650) ? 1 : 0, r.chance(700) ? 1 : 0, (i > 0 || r.chance(300)) && r.chance(fail_rate) ? 1 : 0, r.chance(fail_rate) ? 1 : 0};
     p.ops.push_back(op);
   }
-  int nc = (int)r.range(1, 10);
-  // mostly the natural order, sometimes repeated / out of order calls
-  static const long natural[] = {0, 1, 2, 3};
-  for (int i = 0; i < nc; ++i) { sim::Op op; op.kind = "call"; op.a = {r.chance(650) ? natural[i % 4] : (long)r.below(4)}; p.ops.push_back(op); }
-  p.sched.strategy = "none";
+  if (part == 0) {
+    int nc = (int)r.range(1, 10);
+    // mostly the natural order, sometimes repeated / out of order calls
+    static const long natural[] = {0, 1, 2, 3};
+    for (int i = 0; i < nc; ++i) { sim::Op op; op.kind = "call"; op.a = {r.chance(650) ? natural[i % 4] : (long)r.below(4)}; p.ops.push_back(op); }
+    p.cfg["nofinal"] = r.chance(250) ? 1 : 0;
+    p.sched.strategy = "none";
+  } else {
+    p.cfg["run_ms"] = r.pick((const long[]){0, 1, 15, 40, 40, 120, 700});
+    p.cfg["exit_wait"] = r.below(2);
+    sim::draw_sched(seed, p);
+  }
 }
 
-struct Ev { int hook; int node; bool ok; };
+struct Ev { int hook; int node; bool ok; int tid; bool loop_running; };
 std::vector<Ev> g_trace;
 
 struct NodeSpec { int parent = -1; bool required = true, named = true, fail_init = false, fail_start = false; std::vector<int> children; };
 std::vector<NodeSpec> g_spec;
+
+// Main()/Start() mode
+bool g_main_mode = false;
+std::vector<long> g_ticks;
+std::vector<event::TimerEvent *> g_timers;
 
 class StubContext : public Context {
   public:
@@ -65,10 +92,28 @@ class Probe : public Module {
   public:
     Probe(int id, const std::string &name, Context &ctx) : Module(name, ctx), id_(id) {}
   protected:
-    bool onInit(const Json &) override { bool ok = !g_spec[(size_t)id_].fail_init; g_trace.push_back(Ev{K_INIT, id_, ok}); sim::trace("onInit n%d -> %d", id_, (int)ok); return ok; }
-    bool onStart() override { bool ok = !g_spec[(size_t)id_].fail_start; g_trace.push_back(Ev{K_START, id_, ok}); sim::trace("onStart n%d -> %d", id_, (int)ok); return ok; }
-    void onStop() override { g_trace.push_back(Ev{K_STOP, id_, true}); sim::trace("onStop n%d", id_); }
-    void onCleanup() override { g_trace.push_back(Ev{K_CLEANUP, id_, true}); sim::trace("onCleanup n%d", id_); }
+    void rec(int hook, bool ok) {
+      bool lr = g_main_mode && ctx().loop() && ctx().loop()->isRunning();
+      g_trace.push_back(Ev{hook, id_, ok, sim::self(), lr});
+      sim::trace("%s n%d -> %d (T%d)", HN[hook], id_, (int)ok, sim::self());
+      sim::relevant();
+    }
+    bool onInit(const Json &) override { bool ok = !g_spec[(size_t)id_].fail_init; rec(K_INIT, ok); return ok; }
+    bool onStart() override {
+      bool ok = !g_spec[(size_t)id_].fail_start; rec(K_START, ok);
+      if (ok && g_main_mode && !g_timers[(size_t)id_]) {
+        // a started module does something periodic on the context's loop: "running"
+        int id = id_;
+        auto *t = ctx().loop()->newTimerEvent("c11.tick");
+        t->initialize(std::chrono::milliseconds(10), event::Event::Mode::kPersist);
+        t->setCallback([id] { ++g_ticks[(size_t)id]; });
+        t->enable();
+        g_timers[(size_t)id_] = t;
+      }
+      return ok;
+    }
+    void onStop() override { rec(K_STOP, true); if (g_main_mode && g_timers[(size_t)id_]) { delete g_timers[(size_t)id_]; g_timers[(size_t)id_] = nullptr; } }
+    void onCleanup() override { rec(K_CLEANUP, true); }
   private:
     int id_;
 };
@@ -88,42 +133,25 @@ bool expect_pass(int n, bool init_pass, const std::set<int> &eligible, std::vect
   return true;
 }
 
+// the modules that are up after a pass: a failing required child rolls its earlier siblings and its parent back
+void down_subtree(int n, std::set<int> &up) { up.erase(n); for (int c : g_spec[(size_t)n].children) down_subtree(c, up); }
+bool up_pass(int n, bool init_pass, const std::set<int> &eligible, std::set<int> &up) {
+  if (!eligible.count(n)) return false;
+  if (init_pass ? g_spec[(size_t)n].fail_init : g_spec[(size_t)n].fail_start) return false;
+  up.insert(n);
+  const std::vector<int> &ch = g_spec[(size_t)n].children;
+  for (size_t i = 0; i < ch.size(); ++i) {
+    if (!up_pass(ch[i], init_pass, eligible, up) && g_spec[(size_t)ch[i]].required) { for (size_t j = 0; j < i; ++j) down_subtree(ch[j], up); up.erase(n); return false; }
+  }
+  return true;
+}
+
 bool is_ancestor(int a, int n) { for (int p = g_spec[(size_t)n].parent; p >= 0; p = g_spec[(size_t)p].parent) if (p == a) return true; return false; }
 
-void execute(const sim::Plan &plan) {
-  sim::start(plan);
-  g_spec.clear(); g_trace.clear();
-  for (const sim::Op &op : plan.ops) {
-    if (op.kind != "node" || g_spec.size() >= 16) continue;
-    NodeSpec s; int id = (int)g_spec.size();
-    s.parent = id == 0 ? -1 : (int)(((op.arg(0) % id) + id) % id);
-    s.required = op.arg(1) != 0; s.named = op.arg(2) != 0; s.fail_init = op.arg(3) != 0; s.fail_start = op.arg(4) != 0;
-    g_spec.push_back(s);
-    if (id > 0) g_spec[(size_t)s.parent].children.push_back(id);
-  }
-  if (g_spec.empty()) { g_spec.push_back(NodeSpec()); }
-  StubContext ctx;
-  std::vector<Probe *> mods(g_spec.size());
-  for (size_t i = 0; i < g_spec.size(); ++i) mods[i] = new Probe((int)i, (i == 0 || !g_spec[i].named) ? "" : "m" + std::to_string(i), ctx);
-  // unnamed siblings would collide on the empty name: give every unnamed non-root child a distinct parent-level uniqueness through add() failing — avoid: at most one unnamed child per parent
-  {
-    std::map<int, int> unnamed_seen;
-    for (size_t i = 1; i < g_spec.size(); ++i) {
-      bool named = g_spec[i].named;
-      if (!named && unnamed_seen[g_spec[i].parent]++) { named = true; g_spec[i].named = true; delete mods[i]; mods[i] = new Probe((int)i, "m" + std::to_string(i), ctx); }
-    }
-  }
-  for (size_t i = 1; i < g_spec.size(); ++i) {
-    if (!mods[(size_t)g_spec[i].parent]->add(mods[i], g_spec[i].required)) { sim::violation("C11/add-rejected", "add() rejected a child with a unique name"); return; }
-  }
-  Probe *root = mods[0];
-  Json js;
-  root->fillDefaultConfig(js);
-
-  std::set<int> all; for (size_t i = 0; i < g_spec.size(); ++i) all.insert((int)i);
+// book-keeping shared by all parts
+struct Oracle {
   std::set<int> inited, running;        // model: nodes with a successful init / start that is still owed a cleanup / stop
-  int S = 0;                            // model of the root: 0 none, 1 inited, 2 running
-  auto check_reverse_order = [&](size_t from, const char *when) {
+  void check_reverse_order(size_t from, const char *when) {
     // stop/cleanup: children before parents, later siblings before earlier ones; init/start: the opposite
     for (size_t i = from; i < g_trace.size(); ++i) for (size_t j = i + 1; j < g_trace.size(); ++j) {
       const Ev &a = g_trace[i], &b = g_trace[j];
@@ -143,9 +171,9 @@ void execute(const sim::Plan &plan) {
         if (g_spec[(size_t)a.node].parent == g_spec[(size_t)b.node].parent && a.node < b.node) sim::violation("C11/sibling-order", sim::fmt("%s: %s of sibling n%d ran before n%d (reverse registration order is required)", when, HN[a.hook], a.node, b.node));
       }
     }
-  };
+  }
   // account for every hook call since `from`: preconditions and balance
-  auto account = [&](size_t from, const char *when) {
+  void account(size_t from, const char *when) {
     for (size_t i = from; i < g_trace.size(); ++i) {
       const Ev &e = g_trace[i];
       switch (e.hook) {
@@ -155,11 +183,57 @@ void execute(const sim::Plan &plan) {
         case K_CLEANUP: if (!inited.count(e.node)) sim::violation("C11/cleanup-without-init", sim::fmt("%s: onCleanup of n%d called without a successful onInit owed a cleanup", when, e.node)); if (running.count(e.node)) sim::violation("C11/cleanup-before-stop", sim::fmt("%s: onCleanup of n%d called while it is still started", when, e.node)); inited.erase(e.node); break;
       }
     }
-  };
-  auto expect_balanced_none = [&](const char *when) {
-    if (!running.empty()) sim::violation("C11/start-without-stop", sim::fmt("%s: onStart of n%d succeeded but onStop was never called (tree cleaned up)", when, *running.begin()));
-    else if (!inited.empty()) sim::violation("C11/init-without-cleanup", sim::fmt("%s: onInit of n%d succeeded but onCleanup was never called (tree cleaned up)", when, *inited.begin()));
-  };
+  }
+  void expect_balanced_none(const char *when, int except = -1) {
+    for (int n : running) if (n != except) { sim::violation("C11/start-without-stop", sim::fmt("%s: onStart of n%d succeeded but onStop was never called (tree cleaned up)", when, n)); return; }
+    for (int n : inited) if (n != except) { sim::violation("C11/init-without-cleanup", sim::fmt("%s: onInit of n%d succeeded but onCleanup was never called (tree cleaned up)", when, n)); return; }
+  }
+  void stops_before_cleanups(size_t from, const char *when) {
+    bool seen_cleanup = false;
+    for (size_t i = from; i < g_trace.size(); ++i) {
+      if (g_trace[i].hook == K_CLEANUP) seen_cleanup = true;
+      else if (g_trace[i].hook == K_STOP && seen_cleanup) { sim::violation("C11/stop-after-cleanup-began", sim::fmt("%s of a running tree: onStop of n%d ran after another module had already been cleaned up (stops must all precede cleanups, the reverse of init-then-start)", when, g_trace[i].node)); break; }
+    }
+  }
+};
+
+void load_spec(const sim::Plan &plan) {
+  g_spec.clear(); g_trace.clear();
+  for (const sim::Op &op : plan.ops) {
+    if (op.kind != "node" || g_spec.size() >= 16) continue;
+    NodeSpec s; int id = (int)g_spec.size();
+    s.parent = id == 0 ? -1 : (int)(((op.arg(0) % id) + id) % id);
+    s.required = op.arg(1) != 0; s.named = op.arg(2) != 0; s.fail_init = op.arg(3) != 0; s.fail_start = op.arg(4) != 0;
+    g_spec.push_back(s);
+    if (id > 0) g_spec[(size_t)s.parent].children.push_back(id);
+  }
+  if (g_spec.empty()) { g_spec.push_back(NodeSpec()); }
+  // unnamed siblings would collide on the empty name: at most one unnamed child per parent
+  std::map<int, int> unnamed_seen;
+  for (size_t i = 1; i < g_spec.size(); ++i) if (!g_spec[i].named && unnamed_seen[g_spec[i].parent]++) g_spec[i].named = true;
+}
+
+// builds the probe tree; returns the probe of node 0 (which owns the others once they are added)
+Probe *build_tree(Context &ctx, bool root_named) {
+  std::vector<Probe *> mods(g_spec.size());
+  for (size_t i = 0; i < g_spec.size(); ++i) mods[i] = new Probe((int)i, ((i == 0 && !root_named) || (i > 0 && !g_spec[i].named)) ? "" : "m" + std::to_string(i), ctx);
+  for (size_t i = 1; i < g_spec.size(); ++i) {
+    if (!mods[(size_t)g_spec[i].parent]->add(mods[i], g_spec[i].required)) { sim::violation("C11/add-rejected", "add() rejected a child with a unique name"); break; }
+  }
+  return mods[0];
+}
+
+void execute_calls(const sim::Plan &plan) {
+  StubContext ctx;
+  Probe *root = build_tree(ctx, false);
+  if (sim::violation_count()) return;
+  Json js;
+  root->fillDefaultConfig(js);
+
+  std::set<int> all; for (size_t i = 0; i < g_spec.size(); ++i) all.insert((int)i);
+  Oracle O;
+  std::set<int> &inited = O.inited, &running = O.running;
+  int S = 0;                            // model of the root: 0 none, 1 inited, 2 running
 
   for (const sim::Op &op : plan.ops) {
     if (op.kind != "call") continue;
@@ -175,16 +249,16 @@ void execute(const sim::Plan &plan) {
       std::vector<int> got; for (size_t i = from; i < g_trace.size(); ++i) if (g_trace[i].hook == K_INIT) got.push_back(g_trace[i].node);
       if (r != want) sim::violation("C11/initialize-result", sim::fmt("initialize() returned %d, expected %d", (int)r, (int)want));
       else if (got != att) sim::violation("C11/init-set", sim::fmt("initialize(): onInit was attempted on %zu modules, the pre-order walk with early return on a failing required child (and none for a failing optional one) attempts %zu", got.size(), att.size()));
-      check_reverse_order(from, "initialize()");
-      account(from, "initialize()");
+      O.check_reverse_order(from, "initialize()");
+      O.account(from, "initialize()");
       if (r) S = 1;
       else if (S == 0) {
         // a failed initialize(): the user cleans up; afterwards every successful init must have had its cleanup
         size_t f2 = g_trace.size();
         root->cleanup();
-        check_reverse_order(f2, "cleanup() after a failed initialize()");
-        account(f2, "cleanup() after a failed initialize()");
-        expect_balanced_none("after a failed initialize() followed by cleanup()");
+        O.check_reverse_order(f2, "cleanup() after a failed initialize()");
+        O.account(f2, "cleanup() after a failed initialize()");
+        O.expect_balanced_none("after a failed initialize() followed by cleanup()");
       }
     } else if (c == 1) {
       bool r = root->start();
@@ -195,15 +269,15 @@ void execute(const sim::Plan &plan) {
       std::vector<int> got; for (size_t i = from; i < g_trace.size(); ++i) if (g_trace[i].hook == K_START) got.push_back(g_trace[i].node);
       if (r != want) sim::violation("C11/start-result", sim::fmt("start() returned %d, expected %d", (int)r, (int)want));
       else if (got != att) sim::violation("C11/start-set", sim::fmt("start(): onStart was attempted on %zu modules, expected %zu", got.size(), att.size()));
-      check_reverse_order(from, "start()");
-      account(from, "start()");
+      O.check_reverse_order(from, "start()");
+      O.account(from, "start()");
       if (r) S = 2;
       else if (S == 1) {
         size_t f2 = g_trace.size();
         root->cleanup();
-        check_reverse_order(f2, "cleanup() after a failed start()");
-        account(f2, "cleanup() after a failed start()");
-        expect_balanced_none("after a failed start() followed by cleanup()");
+        O.check_reverse_order(f2, "cleanup() after a failed start()");
+        O.account(f2, "cleanup() after a failed start()");
+        O.expect_balanced_none("after a failed start() followed by cleanup()");
         S = 0;
       }
     } else if (c == 2) {
@@ -211,34 +285,150 @@ void execute(const sim::Plan &plan) {
       root->stop();
       std::set<int> got; for (size_t i = from; i < g_trace.size(); ++i) { if (g_trace[i].hook == K_STOP) got.insert(g_trace[i].node); else sim::violation("C11/unexpected-hook", sim::fmt("stop() called %s", HN[g_trace[i].hook])); }
       if (got != want) sim::violation("C11/stop-set", sim::fmt("stop(): onStop ran on %zu modules, %zu are started", got.size(), want.size()));
-      check_reverse_order(from, "stop()");
-      account(from, "stop()");
+      O.check_reverse_order(from, "stop()");
+      O.account(from, "stop()");
       if (S == 2) S = 1;
     } else {
       root->cleanup();
       // the tear-down is the exact reverse of bring-up (all inits, then all starts): every stop precedes every cleanup
-      { bool seen_cleanup = false; for (size_t i = from; i < g_trace.size(); ++i) { if (g_trace[i].hook == K_CLEANUP) seen_cleanup = true; else if (g_trace[i].hook == K_STOP && seen_cleanup) { sim::violation("C11/stop-after-cleanup-began", sim::fmt("cleanup() of a running tree: onStop of n%d ran after another module had already been cleaned up (stops must all precede cleanups, the reverse of init-then-start)", g_trace[i].node)); break; } } }
-      check_reverse_order(from, "cleanup()");
-      account(from, "cleanup()");
-      expect_balanced_none("after cleanup()");
+      O.stops_before_cleanups(from, "cleanup()");
+      O.check_reverse_order(from, "cleanup()");
+      O.account(from, "cleanup()");
+      O.expect_balanced_none("after cleanup()");
       S = 0;
     }
   }
   if (sim::violation_count() == 0) {
-    size_t from = g_trace.size();
-    root->cleanup();
-    check_reverse_order(from, "final cleanup()");
-    account(from, "final cleanup()");
-    expect_balanced_none("after the final cleanup()");
-    size_t f3 = g_trace.size();
-    delete root;     // deletes the whole tree
-    if (g_trace.size() != f3) sim::violation("C11/hook-during-destruction", "a user hook ran during destruction of a tree that had been cleaned up");
+    if (plan.get("nofinal")) {
+      // destruction without a final cleanup(): the destructor cleans the tree up; the hooks of the object being destroyed
+      // itself (node 0) can no longer be dispatched by then, every other module must still be balanced
+      size_t from = g_trace.size();
+      delete root;
+      O.stops_before_cleanups(from, "destruction");
+      O.check_reverse_order(from, "destruction");
+      O.account(from, "destruction");
+      O.expect_balanced_none("after destruction without a final cleanup()", 0);
+      sim::probe("destroyed_without_cleanup");
+    } else {
+      size_t from = g_trace.size();
+      root->cleanup();
+      O.check_reverse_order(from, "final cleanup()");
+      O.account(from, "final cleanup()");
+      O.expect_balanced_none("after the final cleanup()");
+      size_t f3 = g_trace.size();
+      delete root;     // deletes the whole tree
+      if (g_trace.size() != f3) sim::violation("C11/hook-during-destruction", "a user hook ran during destruction of a tree that had been cleaned up");
+    }
   }
+}
+
+// ---------------------------------------------------------------------- parts 1 and 2: the real Main() / Start()+Stop()
+void noop_handler(int) {}
+
+void execute_main(const sim::Plan &plan, long part) {
+  g_main_mode = true;
+  g_ticks.assign(g_spec.size(), 0);
+  g_timers.assign(g_spec.size(), nullptr);
+  sim::set_deadlock_handler([](const sim::DeadlockInfo &info) { sim::violation("C11/main-never-returns", "every thread is blocked before the framework has shut down: " + info.summary); });
+  sim::set_stepcap_handler([] { sim::violation("C11/main-never-returns", "the framework spins without shutting down (step cap)"); });
+  sim::set_step_cap(2000000);
+  // whatever the framework prints goes to the captured stderr, never to the result channel
+  dup2(2, 1);
+  // a disposition of our own under the framework's SIGINT subscription, so that a late signal is harmless
+  struct sigaction sa; memset(&sa, 0, sizeof sa); sa.sa_handler = noop_handler; sigaction(SIGINT, &sa, nullptr);
+
+  long run_ms = std::max(0L, std::min(5000L, plan.get("run_ms")));
+  std::string wait = std::string("exit_wait_sec=") + (plan.get("exit_wait") ? "1" : "0");
+  const char *argv_c[] = {"c11_app", "-s", "log.stdout.enable=false", "-s", wait.c_str(), nullptr};
+  char **argv = const_cast<char **>(argv_c);
+  int argc = 5;
+
+  // reference: what the frame work must do with the tree
+  std::set<int> all; for (size_t i = 0; i < g_spec.size(); ++i) all.insert((int)i);
+  std::vector<int> att_i, att_s; std::set<int> suc_i, suc_s, up_s;
+  bool ok_i = expect_pass(0, true, all, att_i, suc_i) || !g_spec[0].required;     // the framework's own root holds node 0 as a child
+  bool ok_s = false;
+
+  int64_t t_begin = sim::now_ms();
+  bool started = false;
+  if (part == 1) {
+    std::thread driver([run_ms] {
+      sim::name_thread("driver");
+      sim::sleep_ns(run_ms * 1000000LL + 500000);
+      sim::trace("driver raises SIGINT");
+      { sim::NoSched ns; raise(SIGINT); }
+    });
+    int rc = tbox::main::Main(argc, argv);
+    if (rc != 0) sim::violation("C11/main-result", sim::fmt("Main() returned %d", rc));
+    driver.join();
+  } else {
+    started = tbox::main::Start(argc, argv);
+    if (started) {
+      sim::sleep_ns(run_ms * 1000000LL + 500000);
+      tbox::main::Stop();
+    }
+  }
+  int64_t t_end = sim::now_ms();
+  (void)t_begin; (void)t_end;
+
+  // ---------------------------------------------------------------- oracle over the recorded hooks
+  Oracle O;
+  size_t pos = 0;
+  auto take = [&](int hook) { std::vector<int> v; while (pos < g_trace.size() && g_trace[pos].hook == hook) v.push_back(g_trace[pos++].node); return v; };
+  // phase 1: initialise (a failing required child makes the pass roll back: cleanups may be interleaved there)
+  std::vector<int> got_i; size_t init_end = 0;
+  for (size_t i = 0; i < g_trace.size(); ++i) if (g_trace[i].hook == K_INIT) { got_i.push_back(g_trace[i].node); init_end = i + 1; }
+  if (got_i != att_i) sim::violation("C11/init-set", sim::fmt("Main: onInit was attempted on %zu modules, the pre-order walk with early return on a failing required child attempts %zu", got_i.size(), att_i.size()));
+  std::vector<int> got_s; for (const Ev &e : g_trace) if (e.hook == K_START) got_s.push_back(e.node);
+  if (ok_i) {
+    // eligible for start: initialised and not rolled back by the time the start pass begins
+    std::set<int> elig;
+    for (const Ev &e : g_trace) { if (e.hook == K_START) break; if (e.hook == K_INIT && e.ok) elig.insert(e.node); else if (e.hook == K_CLEANUP) elig.erase(e.node); }
+    ok_s = expect_pass(0, false, elig, att_s, suc_s) || !g_spec[0].required;
+    up_pass(0, false, elig, up_s);
+  }
+  if (sim::violation_count() == 0 && got_s != att_s) sim::violation("C11/start-set", sim::fmt("Main: onStart was attempted on %zu modules, expected %zu (initialise %s)", got_s.size(), att_s.size(), ok_i ? "succeeded" : "failed"));
+  (void)take; (void)init_end;
+  if (part == 2 && sim::violation_count() == 0 && started != (ok_i && ok_s)) sim::violation("C11/start-result", sim::fmt("Start() returned %d, the tree's initialise/start %s", (int)started, (ok_i && ok_s) ? "succeed" : "fail"));
+  if (sim::violation_count() == 0) {
+    O.check_reverse_order(0, "Main");
+    O.account(0, "Main");
+    O.expect_balanced_none("after the framework has shut down and destroyed the tree");
+  }
+  if (sim::violation_count() == 0 && ok_i && ok_s) {
+    // the tree ran.  Which thread serves which hook and whether the loop is still running during the final stop pass are
+    // not part of the property: counted, not judged.
+    for (const Ev &e : g_trace) {
+      if (e.hook == K_STOP && up_s.count(e.node)) sim::probe(e.loop_running ? "final_stop_inside_loop" : "final_stop_outside_loop");
+      if (e.tid != 0) sim::probe("hooks_off_the_calling_thread");
+    }
+    if (sim::violation_count() == 0 && run_ms >= 40)
+      for (int n : up_s) if (g_ticks[(size_t)n] < 1) { sim::violation("C11/started-module-not-running", sim::fmt("module n%d started successfully and the framework ran for %ld ms, yet its 10 ms timer on the context's loop never fired", n, run_ms)); break; }
+    sim::probe("main_ran");
+  } else if (sim::violation_count() == 0) sim::probe(ok_i ? "main_start_failed" : "main_init_failed");
+  for (auto *t : g_timers) if (t) { sim::violation("C11/start-without-stop", "a started module's timer is still alive after shutdown"); break; }
+}
+
+void execute(const sim::Plan &plan) {
+  sim::start(plan);
+  load_spec(plan);
+  long part = std::max(0L, std::min(2L, plan.get("part")));
+  g_main_mode = false;
+  if (part == 0) execute_calls(plan);
+  else execute_main(plan, part);
   sim::probe("hooks", (long)g_trace.size());
   sim::finish();
 }
 
 const sim::Harness H = {"C11", "c11_modules", generate, execute};
 }  // namespace
+
+// the application's module registration, called by Main()/Start()
+namespace tbox { namespace main {
+void RegisterApps(Module &apps, Context &ctx) {
+  Probe *root = build_tree(ctx, true);
+  apps.add(root, g_spec[0].required);
+}
+} }
 
 int main(int argc, char **argv) { return sim::harness_main(argc, argv, H); }
